@@ -313,11 +313,11 @@ class World(S.WorldComponent):
     mix = [("reliable-heavy-loss", False, 3), ("reliable", False, 2), ("reliable-heavy-loss", True, 1), ("mixed-pr", False, 2),
            ("reorder-frag", True, 3), ("strike", False, 1)]
     quick = (33, 280)
-    thorough = (400, 600)
+    thorough = (260, 500)
     oracles = [S.oracle_no_crash, oracle_invariants, S.oracle_c02, S.oracle_recovers]
 
     def cases(self, rng, tier):
-        n = 6 if tier == "quick" else 100
+        n = 6 if tier == "quick" else 60
         args = [(rng.getrandbits(48), i % len(DIRECTED)) for i in range(n)]
         return S.pool().map(_directed, args) + super().cases(rng, tier)
 
